@@ -58,7 +58,7 @@ CHECKS = {
             'length <= 5 (6); refusal leaves files byte-identical; persisted flags; key bytes write-once; searches after upload; the same through frontend/client/commands.py (10 commands, one process); create-matrix over all 9 schemes (created <=> the scheme can be constructed).',
             'PiBas (thorough: + CT14); operations before any create use a well-formed unknown sid as the CLI would.', 'DESIGN.md 4/C11'),
     'C12': ('E3', 'stateless exploration of all delivery/timer schedules (deviation-bounded for 3 connections) of the real server under scripted raw connections',
-            'Every ordered pair of 6 scripts (incl. open-and-close-while-waiting) x 3 initial durable states: ALL schedules (no cap hit in quick); the same pairs with a different request path per connection at deviation bound 2 (4), and with the predecessor's cleanup still pending; 9 triples + 8 triples with a connection that leaves last / gives up while waiting; triples x 3 states with <= 2 (4) '
+            'Every ordered pair of 6 scripts (incl. open-then-close without a request) x 3 initial durable states: ALL schedules (no cap hit in quick); the same pairs with a different request path per connection at deviation bound 2 (4), and with the cleanup of the preceding connection still pending; 9 triples + 8 triples with a connection that leaves last / gives up while waiting; triples x 3 states with <= 2 (4) '
             'deviations; oracles O1-O5 (serialisation at the instant of each server write, monotone durable state, single acknowledgement, control notice, no stuck request).',
             'Timer rule (only <= 2 s timers are schedulable), per-connection FIFO, client-bound frames eager; 3 connections only deviation-bounded.', 'DESIGN.md 4/C12'),
     'C13': ('E4', 'exhaustive crash-point enumeration (kill one component before/after every file-system mutation) on the virtual network with a crash file system',
